@@ -32,8 +32,20 @@ func die(err error) {
 	os.Exit(2)
 }
 
+// extra maps /repo paths to replacement files (VERIF_EXTRA_REPLACE="orig=repl,orig=repl"): used to inject a
+// deliberately broken copy of a source file (mutant runs) without touching /repo.
+var extra = map[string]string{}
+
 func main() {
 	gen := filepath.Join(verif, ".gen")
+	if g := os.Getenv("VERIF_GEN"); g != "" {
+		gen = g
+	}
+	for _, kv := range strings.Split(os.Getenv("VERIF_EXTRA_REPLACE"), ",") {
+		if k, v, ok := strings.Cut(kv, "="); ok {
+			extra[k] = v
+		}
+	}
 	rw := filepath.Join(gen, "rw")
 	os.RemoveAll(rw)
 	if err := os.MkdirAll(rw, 0o755); err != nil {
@@ -77,6 +89,11 @@ func main() {
 		f.Close()
 	}
 
+	for k, v := range extra {
+		if _, done := replace[k]; !done {
+			replace[k] = v
+		}
+	}
 	b, _ := json.MarshalIndent(map[string]any{"Replace": replace}, "", " ")
 	if err := os.WriteFile(filepath.Join(gen, "overlay.json"), b, 0o644); err != nil {
 		die(err)
@@ -95,7 +112,11 @@ func rewritePkg(pkg string, atomicToo bool, rw string, replace map[string]string
 			continue
 		}
 		src := filepath.Join(dir, name)
-		data, err := os.ReadFile(src)
+		readFrom := src
+		if alt, ok := extra[src]; ok {
+			readFrom = alt
+		}
+		data, err := os.ReadFile(readFrom)
 		if err != nil {
 			return err
 		}
@@ -129,6 +150,9 @@ func rewritePkg(pkg string, atomicToo bool, rw string, replace map[string]string
 			edits = append(edits, edit{start, end, text})
 		}
 		if len(edits) == 0 {
+			if alt, ok := extra[src]; ok {
+				replace[src] = alt
+			}
 			continue
 		}
 		out := make([]byte, 0, len(data)+128)
